@@ -23,6 +23,7 @@ type KnownFinding struct {
 
 type Baseline struct {
 	Obligations map[string][]string `json:"obligations"` // property -> obligation names discharged on the unchanged tree
+	Unreachable map[string][]string `json:"unreachable"` // property -> vacuity covers known to be unreachable on the unchanged tree
 }
 
 func has(xs []string, x string) bool {
@@ -352,8 +353,23 @@ func (e *Engine) report(prop, tier string, seed int, results []*FuncResult, obls
 		rep.Broken = append(rep.Broken, "no obligations generated")
 		fmt.Fprintf(os.Stderr, "BROKEN-CHECK property=%s no obligations generated\n", prop)
 	}
+	// a path that was reachable on the unchanged tree and is dead now: either the code really
+	// lost it or an assumption became contradictory - obligations behind it are vacuous
+	if !updateBaseline && base.Unreachable != nil {
+		for _, u := range rep.Unreachable {
+			if !has(base.Unreachable[prop], u) {
+				rep.Undecided = append(rep.Undecided, u+": path is unreachable (it was reachable on the unchanged tree)")
+				fmt.Printf("UNDECIDED property=%s %s path became unreachable\n", prop, u)
+			}
+		}
+	}
 	if updateBaseline && baselineFile != "" {
 		sort.Strings(dischargedNames)
+		if base.Unreachable == nil {
+			base.Unreachable = map[string][]string{}
+		}
+		sort.Strings(rep.Unreachable)
+		base.Unreachable[prop] = rep.Unreachable
 		base.Obligations[prop] = dischargedNames
 		b, _ := json.MarshalIndent(base, "", " ")
 		os.WriteFile(baselineFile, b, 0o644)
